@@ -1,13 +1,22 @@
 #!/bin/bash
-# run every delivered mutant through seedcheck; summary in /tmp/seedall.summary
+# Must-fail corpus: run every stored seeded change (/verif/seeded/<id>/<name>/) through seedcheck.sh
+# (scratch worktree of /repo HEAD, removed afterwards) and compare the outcome of the property's quick
+# check with the expectation recorded in meta.json. Summary in /tmp/seedall.summary; exit 1 if a change
+# that is recorded as caught is no longer caught. Never run two instances at once (shared scratch dir).
+# usage: seedall.sh [dir-with-deliveries]   (default /verif/seeded)
+root=${1:-/verif/seeded}
 out=/tmp/seedall.summary; : > $out
-for d in /tmp/wt/*.out/m*; do
+bad=0
+for d in $root/*/m* $root/*.out/m*; do
   [ -f "$d/patch.diff" ] || continue
   prop=$(basename $(dirname $d) .out); name=$(basename $d)
   log=/tmp/sc-$prop-$name.log
   /verif/seedcheck.sh $prop $d > $log 2>&1
   viol=$(grep -c "^VIOLATION" $log)
   last=$(grep "^property " $log | tail -1)
-  echo "$prop/$name violations=$viol :: $last" >> $out
+  exp=$(python3 -c "import json;print(json.load(open('$d/meta.json')).get('check',{}).get('caught_by_quick_check',''))" 2>/dev/null)
+  echo "$prop/$name violations=$viol expected_caught=$exp :: $last" >> $out
+  if [ "$exp" = "True" ] && [ "$viol" = "0" ]; then bad=1; echo "REGRESSION: $prop/$name is no longer caught" >> $out; fi
 done
 echo done >> $out
+exit $bad
